@@ -106,12 +106,16 @@ fn check_cyclic_dependencies(definitions: &Definitions) -> Result<()> {
     acyclic.insert(node);
     None
   }
+  // elements that share an identifier contribute all their requirements, whichever of them is used later
   let mut dependencies: HashMap<String, Vec<String>> = HashMap::new();
   for decision in definitions.decisions() {
     if let Some(id) = decision.id() {
       let required_decisions = decision.information_requirements().iter().filter_map(|r| r.required_decision().as_ref());
       let required_knowledge = decision.knowledge_requirements().iter().filter_map(|r| r.required_knowledge().as_ref());
-      dependencies.insert(id.clone(), required_decisions.chain(required_knowledge).map(|href| <&str>::from(href).to_string()).collect());
+      dependencies
+        .entry(id.clone())
+        .or_default()
+        .extend(required_decisions.chain(required_knowledge).map(|href| <&str>::from(href).to_string()));
     }
   }
   for decision_service in definitions.decision_services() {
@@ -122,19 +126,19 @@ fn check_cyclic_dependencies(definitions: &Definitions) -> Result<()> {
         .iter()
         .chain(decision_service.encapsulated_decisions().iter())
         .chain(decision_service.input_decisions().iter());
-      dependencies.insert(id.clone(), required.map(|href| <&str>::from(href).to_string()).collect());
+      dependencies.entry(id.clone()).or_default().extend(required.map(|href| <&str>::from(href).to_string()));
     }
   }
   for business_knowledge_model in definitions.business_knowledge_models() {
     if let Some(id) = business_knowledge_model.id() {
       let required = business_knowledge_model.knowledge_requirements().iter().filter_map(|r| r.required_knowledge().as_ref());
-      dependencies.insert(id.clone(), required.map(|href| <&str>::from(href).to_string()).collect());
+      dependencies.entry(id.clone()).or_default().extend(required.map(|href| <&str>::from(href).to_string()));
     }
   }
   for item_definition in definitions.item_definitions() {
     let mut refs = vec![];
     type_refs(item_definition, &mut refs);
-    dependencies.insert(format!("type {}", item_definition.name()), refs);
+    dependencies.entry(format!("type {}", item_definition.name())).or_default().extend(refs);
   }
   let mut acyclic = HashSet::new();
   for node in dependencies.keys() {
